@@ -20,6 +20,17 @@ type Knobs struct {
 	MaxReqs int
 }
 
+// Per-universe flavours, drawn at the start of each generator.
+var (
+	hubFlavour bool
+	preFlavour bool
+)
+
+func drawFlavours(t *kernel.Tape) {
+	hubFlavour = t.Bool(1, 3)
+	preFlavour = t.Bool(1, 3)
+}
+
 var baseNames = []string{"alpha", "bravo", "chuck", "delta", "echo", "fox", "golf", "hotel", "india", "juliet", "kilo", "lima"}
 
 type triple struct {
@@ -36,7 +47,7 @@ func drawTriples(t *kernel.Tape, n int, preKinds int) []triple {
 	out := []triple{{M: 1}}
 	for len(out) < n {
 		c := triple{M: 1 + t.Choose(3), m: t.Choose(3), p: t.Choose(3)}
-		if preKinds > 0 && t.Bool(1, 5) {
+		if preKinds > 0 && ((preFlavour && t.Bool(1, 2)) || t.Bool(1, 5)) {
 			c.pre = 1 + t.Choose(preKinds)
 			c.preN = 1 + t.Choose(2)
 		}
@@ -67,6 +78,15 @@ func drawTriples(t *kernel.Tape, n int, preKinds int) []triple {
 	return out
 }
 
+func hasVersion(vs []uni.Ver, v string) bool {
+	for _, x := range vs {
+		if x.V == v {
+			return true
+		}
+	}
+	return false
+}
+
 func kv(k int, v string) uni.KV { return uni.KV{K: k, V: v} }
 
 // pickTarget picks the package a requirement of package i points to: mostly a
@@ -74,6 +94,16 @@ func kv(k int, v string) uni.KV { return uni.KV{K: k, V: v} }
 func pickTarget(t *kernel.Tape, i, n int) int {
 	if n == 1 {
 		return 0
+	}
+	// hub flavour: half of the requirements point at the last one or two
+	// packages, so that several dependents constrain the same package
+	// (diamonds, conflicts, multi-requirement criteria)
+	if hubFlavour && t.Bool(1, 2) {
+		h := n - 1 - t.Choose(2)
+		if h < 0 {
+			h = 0
+		}
+		return h
 	}
 	if i < n-1 && !t.Bool(1, 8) {
 		return i + 1 + t.Choose(n-1-i)
@@ -135,6 +165,7 @@ func npmReq(t *kernel.Tape, target []triple, tv int) string {
 
 // NPM draws an npm universe.
 func NPM(t *kernel.Tape, k Knobs) *uni.Spec {
+	drawFlavours(t)
 	s := &uni.Spec{Sys: resolve.NPM}
 	n := t.Range(3, k.MaxPkgs)
 	names := make([]string, n)
@@ -163,6 +194,9 @@ func NPM(t *kernel.Tape, k Knobs) *uni.Spec {
 			v := uni.Ver{V: npmVer(c)}
 			if vi > 0 && t.Bool(1, 24) {
 				v.V = fmt.Sprintf("%d.%d.%d.bad", c.M, c.m, c.p) // not a semver: ordered after parsable ones
+			}
+			if hasVersion(p.Vers, v.V) {
+				continue // version keys of one package are pairwise distinct
 			}
 			if vi == latest {
 				v.Attrs = append(v.Attrs, kv(int(version.Tags), "latest"))
@@ -302,6 +336,7 @@ func mavenReq(t *kernel.Tape, target []triple, tv int) string {
 
 // Maven draws a Maven universe.
 func Maven(t *kernel.Tape, k Knobs) *uni.Spec {
+	drawFlavours(t)
 	s := &uni.Spec{Sys: resolve.Maven}
 	n := t.Range(3, k.MaxPkgs)
 	names := make([]string, n)
@@ -323,6 +358,9 @@ func Maven(t *kernel.Tape, k Knobs) *uni.Spec {
 		p := uni.Pkg{Name: names[i]}
 		for _, c := range trip[i] {
 			v := uni.Ver{V: mavenVer(c)}
+			if hasVersion(p.Vers, v.V) {
+				continue
+			}
 			nr := t.Range(0, k.MaxReqs)
 			if i == 0 && nr == 0 {
 				nr = 1
@@ -405,6 +443,20 @@ func pypiReq(t *kernel.Tape, target []triple, tv int) string {
 	c := target[tv]
 	full := pypiVer(c)
 	base := fmt.Sprintf("%d.%d.%d", c.M, c.m, c.p+1)
+	if preFlavour && t.Bool(1, 3) {
+		switch t.Choose(5) {
+		case 0:
+			return ">=" + base + "a1"
+		case 1:
+			return "<" + base + "rc2"
+		case 2:
+			return "==" + full
+		case 3:
+			return fmt.Sprintf(">=%d.0.0.dev1", c.M)
+		default:
+			return "<=" + fmt.Sprintf("%d.%d.%drc1", c.M, c.m, c.p+2)
+		}
+	}
 	switch t.Choose(13) {
 	case 0:
 		return ""
@@ -453,6 +505,7 @@ var pypiMarkers = []string{
 
 // PyPI draws a PyPI universe.
 func PyPI(t *kernel.Tape, k Knobs) *uni.Spec {
+	drawFlavours(t)
 	s := &uni.Spec{Sys: resolve.PyPI}
 	n := t.Range(3, k.MaxPkgs)
 	names := make([]string, n)
@@ -473,6 +526,9 @@ func PyPI(t *kernel.Tape, k Knobs) *uni.Spec {
 		p := uni.Pkg{Name: names[i]}
 		for _, c := range trip[i] {
 			v := uni.Ver{V: pypiVer(c)}
+			if hasVersion(p.Vers, v.V) {
+				continue
+			}
 			nr := t.Range(0, k.MaxReqs)
 			if i == 0 && nr == 0 {
 				nr = 1
